@@ -9,6 +9,7 @@ import Driver.Proto
 import Driver.Shuffle
 import Driver.Cut
 import Driver.Parquet
+import Driver.Schema
 import Driver.Repartition
 import Driver.Pred
 import Driver.Cache
@@ -41,6 +42,7 @@ def handlers : List (List String → Option String) :=
   , Dx.Drv.Shuffle.handle
   , Dx.Drv.Cut.handle
   , Dx.Drv.Parquet.handle
+  , Dx.Drv.Schema.handle
   , Dx.Drv.Repartition.handle
   , Dx.Drv.Pred.handle
   , Dx.Drv.Cache.handle
